@@ -639,7 +639,6 @@ class Model(object):
         if lhs.is_Derivative:
             if len(lhs.args) > 2 or lhs.args[1][1] > 1:
                 raise ValueError('Only first order derivatives wrt a single variable are supported')
-        self.equations.append(equation)
         if lhs.is_Derivative:
             state_var = lhs.free_symbols.pop()
             if check_duplicates:
@@ -651,6 +650,7 @@ class Model(object):
             self._var_definition_map[lhs] = equation
         else:
             raise ValueError('Equation LHS should be a derivative or variable, not {}'.format(lhs))
+        self.equations.append(equation)
         self._invalidate_cache()
 
     def remove_equation(self, equation):
